@@ -125,7 +125,7 @@ def histories(tier, seed):
         ini = rng.choice(INITIALS[1:])
         h = sr.random_history(rng, rng.randint(2, 6), model_of(ini), names=['a', 'b', 'c'],
                               tpls=('T1', 'T2', 'T3', 'T4'), max_comps=3)
-        if any(o['op'] in ('add', 'addex', 'adddel') or o.get('tpl') == 'T0' for o in h):
+        if any(o['op'] in ('add', 'addex', 'adddel', 'add2') or o.get('tpl') == 'T0' for o in h):
             continue
         h = [dict(o) for o in h]
         h[0]['bare'] = True
@@ -164,7 +164,7 @@ def interesting(prop, ops):
         return bool(kinds & {'div', 'divx', 'move', 'moveupd', 'moveback', 'gendel', 'gen2'})
     if prop == 'C05':
         return any(o.get('mode') == 'step' for o in ops) or any(o.get('tpl') in ('T2', 'T4', 'T5') for o in ops)
-    return bool(kinds & {'add', 'gen', 'div', 'divx', 'move', 'del', 'delpath'})
+    return bool(kinds & {'add', 'add2', 'gen', 'div', 'divx', 'move', 'del', 'delpath'})
 
 
 def validate(rep, prop, hists, scratch, label='store'):
